@@ -12,8 +12,8 @@ import os
 from . import core
 
 KERNELS = {
-    "quick": ["comp3", "qty3", "qtycw3", "qtytm3", "mod3", "modcw3", "modtm3", "block3", "esc3", "wrap3"],
-    "thorough": ["comp5", "qty5", "qtycw4", "qtytm4", "mod5", "modcw4", "modtm4", "block5", "esc5", "wrap4"],
+    "quick": ["comp3", "qty3", "qtycw3", "qtytm3", "mod3", "modcw3", "modtm3", "block3", "esc3", "wrap3", "path4"],
+    "thorough": ["comp5", "qty5", "qtycw4", "qtytm4", "mod5", "modcw4", "modtm4", "block5", "esc5", "wrap4", "path5"],
 }
 CLAUSE_TEXT = {
     "C01": "RecipeReadAsSpecified: an input the specification reads without a diagnostic is a recipe of the language; its "
@@ -21,6 +21,8 @@ CLAUSE_TEXT = {
            "sections - not their positions) must be exactly the specified ones",
     "C04": "EventsLocatedInOrder / EventsBracketed: located events lie inside the input, in source order, without overlap, "
            "inside properly closed step / text brackets",
+    "C03": "Returns / EventsBracketed: the pull parser returns for every input of the kernels under every extension set of the "
+           "kernel, and its events respect the protocol the analysis relies on",
     "C07": "SilentWhenSpecifiedSilent / DiagnosedAsSpecified: no diagnostic where the specification raises none; every "
            "specified diagnostic is raised with that severity and class on a label touching the specified one",
 }
@@ -31,8 +33,8 @@ def text_of(rec):
     return t(dict(text=rec["input"]))
 
 
-def conformance(ctx, prop, kernels=None, max_per_kernel=None):
-    """runs the kernels, returns the number of records judged"""
+def conformance(ctx, prop, kernels=None, max_per_kernel=None, collect=None, with_documents=True):
+    """runs the kernels, returns the number of records judged; `collect`: a list that receives the distinct inputs"""
     quick = ctx.tier == "quick"
     total = 0
     drift = 0
@@ -41,6 +43,13 @@ def conformance(ctx, prop, kernels=None, max_per_kernel=None):
         r = core.run_tlc(ctx, "MC_Parser", f"MC_Parser_{k}.cfg", workers=8, timeout=3000,
                          max_replay=max_per_kernel or (None if quick else 400000))
         ctx.model_violation(r, f"(parser kernel {k})")
+        if collect is not None:
+            seen = {tuple(x) for x in collect}
+            for x in r.replay:
+                t = tuple(x["input"])
+                if t not in seen:
+                    seen.add(t)
+                    collect.append(x["input"])
         pin = os.path.join(ctx.work, f"pp_{k}.ndjson")
         pout = os.path.join(ctx.work, f"pp_{k}_obs.ndjson")
         core.write_ndjson(pin, r.replay)
@@ -64,7 +73,8 @@ def conformance(ctx, prop, kernels=None, max_per_kernel=None):
         ctx.drift_note("ParserExactlyAsSpecified", drift)
     ctx.extra["parser_model"] = dict(kernels=kernels or KERNELS[ctx.tier], records=total, drift=drift,
                                      inputs_read_without_diagnostic=silent, clauses=CLAUSE_TEXT[prop])
-    total += documents(ctx, prop)
+    if with_documents:
+        total += documents(ctx, prop)
     return total
 
 
